@@ -298,7 +298,7 @@ func (st *State) appendOp(s Value, t Value, pos token.Pos) Value {
 		st.assume(Eq(dst, a))
 	} else {
 		st.assume(Forall([]Term{i}, Ite(And(Le(Add(off, ln), i), Lt(i, Add(off, newLen))),
-			Eq(Select(dst, i), Select(srcArr, Add(srcOff, Sub(i, Add(off, ln))))),
+			Eq(Select(dst, i), Select(srcArr, Ix(srcOff, Sub(i, Add(off, ln))))),
 			Eq(Select(dst, i), Select(base, i)))))
 	}
 	newRef := e.fresh("ref", SInt)
@@ -368,7 +368,13 @@ func (st *State) intrinsic(key string, callee *ssa.Function, args []Value, pos t
 		name, sort := e.memName(types.Typ[types.Uint8])
 		m := st.heapGet(name, sort)
 		e.assumes["util.StringFromBytes/BytesFromString (unsafe): modelled as a snapshot copy plus a writable flag; later writes through the shared memory are not reflected in the string"] = true
-		return Value{T: resT, Tm: MkStr4(Select(m, SlRef(b.Tm)), SlOff(b.Tm), SlLen(b.Tm), IntLit(1))}, true
+		// own: 1 = view of memory that existed before this call (shared with whoever holds it), 2 = view of memory
+		// allocated during this call (a private copy unless the function leaks the slice - not tracked)
+		own := IntLit(1)
+		if st.entry != nil {
+			own = Ite(Gt(SlRef(b.Tm), st.entry.alloc), IntLit(2), IntLit(1))
+		}
+		return Value{T: resT, Tm: MkStr4(Select(m, SlRef(b.Tm)), SlOff(b.Tm), SlLen(b.Tm), own)}, true
 	case "binary.littleEndian.AppendUint64":
 		// append(b, byte(v), byte(v>>8), ... byte(v>>56)): eight fresh bytes whose little-endian value is v
 		if pkgPath != "encoding/binary" {
